@@ -354,7 +354,6 @@ func streamC18(c *Ctx) {
 	}
 }
 
-
 // ---- Document.Unmarshal: key renaming along the target struct type (renameMapKeys) ----
 
 type rField struct {
